@@ -13,6 +13,7 @@
 //	eq <hex defA> <hex defB> Equal both ways, NewTransform nil-ness
 //	reg <name>               -> prep appends `| <hex definition string of global.go>`
 //	prj <hex bytes>          Decoder.SR() of a .prj file with these bytes vs Parse
+//	prjn <hex name> <call> <hex bytes> <hex decoy>   the same for a layer of that name (dots, directories) among decoy .prj files
 //	pair2 <hex defA> <hex defB> <glon> <glat>   two spellings of one CRS: transform agreement only
 package main
 
@@ -288,6 +289,84 @@ func prjSR(data string) (*proj.SR, string) {
 	return sr, "ok " + dump(sr) + " ;"
 }
 
+// prjNamed: a layer <dir>/<name>.shp with its own <name>.prj (bytes `data`) among DECOY .prj files that a wrong rule for
+// deriving the .prj path would pick up: one for every dot-prefix of the base name (zones.prj next to zones.v2.prj, ".prj"
+// for a layer ".hidden"), <name>.shp.prj, <name>.prj.prj's neighbours, and a "prj" / ".prj" in the directory above.
+// call: "ext" = NewDecoder(<name>.shp), "noext" = NewDecoder(<name>), "dotdot" = NewDecoder(<dir>/sub.d/../<name>.shp).
+// decoy == "" : no decoys (a wrong path then gives "no such file").
+func prjNamed(name, call, data, decoy string) (*proj.SR, string) {
+	if prjBase == "" {
+		prjSR("") // makes the template layer prjBase.{shp,shx,dbf}
+	}
+	root, err := ioutil.TempDir(filepath.Dir(prjBase), "n")
+	if err != nil {
+		panic(err)
+	}
+	defer os.RemoveAll(root)
+	full := filepath.Join(root, filepath.FromSlash(name))
+	if err := os.MkdirAll(filepath.Dir(full), 0755); err != nil {
+		panic(err)
+	}
+	if err := os.MkdirAll(filepath.Join(filepath.Dir(full), "sub.d"), 0755); err != nil {
+		panic(err)
+	}
+	for _, ext := range []string{".shp", ".shx", ".dbf"} {
+		b, err := ioutil.ReadFile(prjBase + ext)
+		if err != nil {
+			panic(err)
+		}
+		if err := ioutil.WriteFile(full+ext, b, 0644); err != nil {
+			panic(err)
+		}
+	}
+	if decoy != "" {
+		dir, base := filepath.Dir(full), filepath.Base(full)
+		var ds []string
+		for i := 0; i < len(base); i++ {
+			if base[i] == '.' {
+				ds = append(ds, filepath.Join(dir, base[:i]+".prj"), filepath.Join(dir, base[:i]+".PRJ"))
+			}
+		}
+		ds = append(ds, full+".shp.prj", full+".prj.prj", full+".PRJ", full+"prj", filepath.Join(dir, "prj"),
+			filepath.Join(dir, ".prj"), filepath.Join(dir, "sub.d", base+".prj"), dir+".prj")
+		for _, d := range ds {
+			if d == full+".prj" {
+				continue
+			}
+			if err := ioutil.WriteFile(d, []byte(decoy), 0644); err != nil {
+				panic(err)
+			}
+		}
+	}
+	// written LAST: a decoy never overwrites the layer's own file
+	if err := ioutil.WriteFile(full+".prj", []byte(data), 0644); err != nil {
+		panic(err)
+	}
+	arg := full + ".shp"
+	switch call {
+	case "noext":
+		arg = full
+	case "dotdot":
+		arg = filepath.Dir(full) + "/sub.d/../" + filepath.Base(full) + ".shp"
+	}
+	var sr *proj.SR
+	if p := vproto.Safe(func() {
+		d, e := shp.NewDecoder(arg)
+		if e != nil {
+			err = e
+			return
+		}
+		defer d.Close()
+		sr, err = d.SR()
+	}); p != "" {
+		return nil, "panic ;"
+	}
+	if err != nil || sr == nil {
+		return nil, "err ;"
+	}
+	return sr, "ok " + dump(sr) + " ;"
+}
+
 func implLine(line string, out *bufio.Writer) {
 	t := strings.Fields(line)
 	if t[0] == "lreg" || t[0] == "lregalias" { // late registry checks: same calls as reg / regalias
@@ -455,6 +534,12 @@ func implLine(line string, out *bufio.Writer) {
 	case "prj":
 		data := unhx(t[1])
 		_, rs := prjSR(data)
+		_, rp := parseRes(data)
+		fmt.Fprintf(&b, "S %s P %s", rs, rp)
+	case "prjn":
+		// prjn <hex layer name> ext|noext|dotdot <hex bytes of its .prj> <hex bytes of the decoy .prj files>
+		data := unhx(t[3])
+		_, rs := prjNamed(unhx(t[1]), t[2], data, unhx(t[4]))
 		_, rp := parseRes(data)
 		fmt.Fprintf(&b, "S %s P %s", rs, rp)
 	default:
